@@ -17,14 +17,15 @@ LEVEL_TEXT = ("For every file and every header of the RFC 7233 single-range gram
               "sizes 0..300 x all range forms around the boundaries x GET/HEAD.")
 LEVEL_NOTE = ("Lean kernel + standard axioms; model hand-written, tied by correspondence; headers are ASCII (Python's int()/strip() on "
               "non-ASCII digits and white space are outside the model); Accept-Ranges / Content-Type / ETag are compared between HEAD and "
-              "GET on the implementation only (not modelled in Lean); HEAD omits the ETag that GET sends for CHK files (counted, not flagged).")
+              "GET on the implementation only (not modelled in Lean), as are the 304 answers to If-None-Match.")
 RULE = ("file sizes 0..300 (quick: a seeded sample that always contains 0,1,2,3,255,256,300; thorough: all, plus random larger ones) x "
         "single first-last / first- / -suffix ranges with every bound taken around 0 and the file size, multi-range sets, white-space and "
         "lenient-numeral variants, malformed headers, x GET/HEAD, through FileDownloader.render; a case is one request; non-trivial = "
         "the request carries a non-empty Range header; in addition every boundary family (first-last / first- / -suffix / multi / "
         "lenient / garbage around 0, size-1, size, size+1, size 0) is sent as GET and HEAD through the real Site/Root/FileNodeHandler "
         "for literal, CHK, SDMF and MDMF files (mutable: as created, overwritten shorter, longer, emptied), HEAD compared with GET "
-        "(status, Content-Range, Content-Length, Accept-Ranges, Content-Type, ETag when HEAD sends one, empty body) and with the model")
+        "(status, Content-Range, Content-Length, Accept-Ranges, Content-Type, ETag, empty body) and with the model; conditional GET/HEAD "
+        "(If-None-Match with the file's ETag / * / a foreign tag, with and without Range) must both answer 304 resp. as without it")
 TRUSTED = ["lean/Tahoe/Web/Range.lean is a hand transcription of parse_range_header/render (str.split, str.strip and int() modelled for ASCII)",
            "twisted.web.test.requesthelper.DummyRequest stands for the HTTP request (headers in, status/headers/body out)",
            "harness/grid.py (in-process grid, virtual clock) and the raw HTTP/1.0 feeding shim RoutedWeb in harness/props/c40.py"]
@@ -367,7 +368,7 @@ class RoutedWeb:
         self.rt = rt
         self.site = Site(Root(client, None, lambda: 0.0), requestFactory=TahoeLAFSRequest)
 
-    def request(self, method, path, hdr=None, body=b""):
+    def request(self, method, path, hdr=None, body=b"", extra=None):
         """-> (status, {header: value}, body)"""
         import grid
         from twisted.internet import defer
@@ -389,6 +390,8 @@ class RoutedWeb:
         lines = ["%s %s HTTP/1.0" % (method, path), "Host: localhost"]
         if hdr is not None:
             lines.append("Range: " + hdr)
+        for k, v in (extra or {}).items():
+            lines.append("%s: %s" % (k, v))
         if body or method == "PUT":
             lines.append("Content-Length: %d" % len(body))
         raw = ("\r\n".join(lines) + "\r\n\r\n").encode("ascii") + body
@@ -444,7 +447,7 @@ HEAD_FIELDS = [("status", None), ("content-range", "content-range"), ("content-l
 
 def run_routed(ctx, plans, cases, impl, lines, only=None):
     """GET and HEAD through the real resource tree for every (file state, Range header).
-    `only` = (chain, hdr) restricts to one state/header (replay)."""
+    `only` = (chain, hdr, inm) restricts to one state/header (replay)."""
     import grid
     from common import hx
     from allmydata.immutable import upload
@@ -480,43 +483,73 @@ def run_routed(ctx, plans, cases, impl, lines, only=None):
                             raise RuntimeError("PUT (overwrite with %d bytes) answered %r %r" % (n, st, body[:80]))
                     if only is not None and (chain[:depth + 1] != only[0]):
                         continue
-                    hdrs = [only[1]] if only is not None else routed_headers(n, rng, ctx.tier == "thorough" and depth == 0)
+                    if only is not None:
+                        pairs = [(only[1], only[2])]
+                    else:
+                        pairs = [(h, None) for h in routed_headers(n, rng, ctx.tier == "thorough" and depth == 0)]
+                        # conditional requests: If-None-Match with the file's own ETag, "*", a foreign tag, the tag in quotes
+                        for h in (None, "bytes=1-3", "bytes=%d-" % n):
+                            for inm in (("match", "star", "nonmatch", "quoted") if kind in ("lit", "chk") else ("nonmatch",)):
+                                pairs.append((h, inm))
                     state = "created" if depth == 0 else ("shorter" if n < chain[depth - 1] else "longer")
                     ctx.count("routed-state:%s-%s" % (kind, state))
-                    for h in hdrs:
+                    etag = None
+                    if any(inm in ("match", "quoted") for _, inm in pairs):
+                        etag = web.request("GET", path, None)[1].get("etag")
+                    for (h, inm) in pairs:
+                        if inm in ("match", "quoted") and etag is None:
+                            ctx.count("routed-inm:no-etag-to-match:" + kind)      # literal files carry no ETag
+                            continue
+                        extra = None
+                        if inm is not None:
+                            extra = {"If-None-Match": {"match": etag, "star": "*", "nonmatch": "someothertag-",
+                                                       "quoted": '"%s"' % etag}[inm]}
+                            ctx.count("routed-inm:%s:%s" % (inm, kind))
+                        # with a matching tag (or "*" on a file that has an ETag) the answer is 304; otherwise as without the header
+                        expect304 = inm == "match" or (inm == "star" and kind == "chk")
                         got = {}
                         for m, meth in (("G", "GET"), ("H", "HEAD")):
-                            status, rh, body = web.request(meth, path, h)
+                            status, rh, body = web.request(meth, path, h, extra=extra)
                             resp = (status, rh.get("content-range"), rh.get("content-length"), body)
                             got[m] = (resp, rh)
-                            case = {"route": "site", "kind": kind, "chain": chain[:depth + 1], "size": n, "method": m, "hdr": h}
+                            case = {"route": "site", "kind": kind, "chain": chain[:depth + 1], "size": n, "method": m, "hdr": h, "inm": inm}
+                            ctx.case(("site", kind, n, m, h, inm) if (h or inm) else None)
+                            ctx.count("routed:%s:%s" % (kind, meth))
+                            if expect304 or inm == "quoted":
+                                continue            # 304 is outside the Lean model; "quoted": only HEAD == GET is demanded
                             cases.append(case)
                             impl.append(canon(resp))
                             lines.append("c40 %d %s %s" % (n, m, "none" if h is None else hx(h.encode("ascii"))))
-                            ctx.case(("site", kind, n, m, h) if h else None)
-                            ctx.count("routed:%s:%s" % (kind, meth))
                         (gresp, gh), (hresp, hh) = got["G"], got["H"]
-                        hcase = {"route": "site", "kind": kind, "chain": chain[:depth + 1], "size": n, "method": "H", "hdr": h}
+                        hcase = {"route": "site", "kind": kind, "chain": chain[:depth + 1], "size": n, "method": "H", "hdr": h, "inm": inm}
+                        what = "Range %r%s on a %d-byte %s file (%s)" % (h, "" if inm is None else " + If-None-Match (%s)" % inm, n, kind, state)
                         # --- HEAD: the same status and headers as GET, no body
                         for name, key in HEAD_FIELDS:
                             gv = gresp[0] if key is None else gh.get(key)
                             hv = hresp[0] if key is None else hh.get(key)
                             if gv != hv:
-                                ctx.violation("HEAD differs from GET in %s for Range %r on a %d-byte %s file (%s): GET %r, HEAD %r" % (
-                                    name, h, n, kind, state, (gresp[0], gresp[1], gresp[2]), (hresp[0], hresp[1], hresp[2])),
+                                ctx.violation("HEAD differs from GET in %s for %s: GET %r, HEAD %r" % (
+                                    name, what, (gresp[0], gresp[1], gresp[2]), (hresp[0], hresp[1], hresp[2])),
                                     hcase, "head-differs-from-get:" + name)
                                 break
-                        if "etag" in hh and hh.get("etag") != gh.get("etag"):
-                            ctx.violation("HEAD ETag %r differs from GET ETag %r" % (hh.get("etag"), gh.get("etag")),
+                        if hh.get("etag") != gh.get("etag"):
+                            ctx.violation("HEAD ETag %r differs from GET ETag %r for %s" % (hh.get("etag"), gh.get("etag"), what),
                                           hcase, "head-differs-from-get:etag")
-                        if "etag" in gh and "etag" not in hh:
-                            ctx.count("note:head-omits-etag-that-get-sends")
                         if hresp[3] != b"":
-                            ctx.violation("HEAD carried a %d-byte body for Range %r on a %d-byte %s file" % (len(hresp[3]), h, n, kind),
-                                          hcase, "head-has-body")
+                            ctx.violation("HEAD carried a %d-byte body for %s" % (len(hresp[3]), what), hcase, "head-has-body")
                         if gresp[0] in (200, 206) and gh.get("accept-ranges") != "bytes":
                             ctx.violation("GET answer lacks Accept-Ranges: bytes (%r)" % (gh.get("accept-ranges"),),
                                           dict(hcase, method="G"), "accept-ranges-missing")
+                        if expect304:
+                            for m in "GH":
+                                resp = got[m][0]
+                                if resp[0] != 304 or resp[3] != b"":
+                                    ctx.violation("%s with If-None-Match naming the file's ETag answers %r with a %d-byte body instead of 304 for %s" % (
+                                        "GET" if m == "G" else "HEAD", resp[0], len(resp[3]), what), dict(hcase, method=m),
+                                        "if-none-match-not-304:" + ("get" if m == "G" else "head"))
+                            continue
+                        if inm == "quoted":
+                            continue
                         # --- RFC 7233 oracle on both answers
                         acc, cls = acceptable(h, n)
                         for m in "GH":
@@ -525,8 +558,8 @@ def run_routed(ctx, plans, cases, impl, lines, only=None):
                             ctx.count("class:" + cls)
                             ctx.count("answer:%s" % ab[0])
                             if ab not in acc:
-                                ctx.violation("%s through the web tree answers %r (%s) to Range %r on a %d-byte %s file (%s); acceptable: %s" % (
-                                    "GET" if m == "G" else "HEAD", canon(resp)[:80], "/".join(str(x) for x in ab), h, n, kind, state,
+                                ctx.violation("%s through the web tree answers %r (%s) to %s; acceptable: %s" % (
+                                    "GET" if m == "G" else "HEAD", canon(resp)[:80], "/".join(str(x) for x in ab), what,
                                     sorted(acc)), dict(hcase, method=m), signature(h, n, cls, ab))
             g.close()
     finally:
@@ -543,7 +576,7 @@ def run(ctx):
     if ctx.replay:
         c = ctx.replay["case"]
         if c.get("route") == "site":
-            routed_only = (c["chain"], c["hdr"])
+            routed_only = (c["chain"], c["hdr"], c.get("inm"))
             plans = [{"kind": c["kind"], "chain": c["chain"]}]
         else:
             for m in "GH":
